@@ -91,6 +91,18 @@ Definition first_comp_not_sc (p : path) : Prop := forall r, p <> sc_dir :: r.
 Lemma sc_path_first : forall ext c, exists r, sc_path ext c = sc_dir :: r.
 Proof. intros. eexists. reflexivity. Qed.
 
+(* ------------------------------------------------------------------ inode numbers *)
+Lemma max_ino_ge : forall s p i b, fs_get s p = Some (NFile i b) -> (i <= fs_max_ino s)%nat.
+Proof.
+  induction s as [|[q n] s IH]; intros p i b E; cbn [fs_get fs_max_ino] in *; [discriminate|].
+  destruct (path_eqb q p).
+  - injection E as ->. lia.
+  - specialize (IH p i b E). destruct n; lia.
+Qed.
+
+Lemma fresh_not_used : forall s p b, fs_get s p <> Some (NFile (fs_fresh s) b).
+Proof. intros s p b E. apply max_ino_ge in E. unfold fs_fresh in E. lia. Qed.
+
 (* ------------------------------------------------------------------ refinement *)
 Section FileRefine.
   Variable layout : layout_fun.
@@ -119,32 +131,40 @@ Section FileRefine.
   Definition canon (c : Z) : bytes := repeat c npix.
 
   Record Inv (s : fs) : Prop := {
-    inv_sc : forall c n, colour c -> fs_get s (scp c) = Some n -> n = NFile (canon c);
+    inv_sc : forall c n, colour c -> fs_get s (scp c) = Some n -> exists i, n = NFile i (canon c);
     inv_sym : forall a t, V a -> fs_get s (loc a) = Some (NSym t) ->
-                          exists c, colour c /\ t = scp c /\ fs_get s t = Some (NFile (canon c))
+                          exists c i, colour c /\ t = scp c /\ fs_get s t = Some (NFile i (canon c));
+    (* directory entries with the same inode number have the same content *)
+    inv_ino : forall p q i b1 b2, fs_get s p = Some (NFile i b1) -> fs_get s q = Some (NFile i b2) -> b1 = b2
   }.
 
   Definition frel (s : fs) (m : smap) : Prop := forall a, V a -> fs_read s (loc a) = m a.
 
-  (* reading a tile path: at most one link *)
-  Lemma read_loc : forall s a, Inv s -> V a ->
-    fs_read s (loc a) =
+  (* inode and content of a tile path: at most one link *)
+  Lemma stat_loc : forall s a, Inv s -> V a ->
+    fs_stat s (loc a) =
     match fs_get s (loc a) with
-    | Some (NFile b) => Some b
-    | Some (NSym t) => match fs_get s t with Some (NFile b) => Some b | _ => None end
+    | Some (NFile i b) => Some (i, b)
+    | Some (NSym t) => match fs_get s t with Some (NFile i b) => Some (i, b) | _ => None end
     | None => None
     end.
   Proof.
-    intros s a Hi Va. unfold fs_read. cbn [fs_resolve].
-    destruct (fs_get s (loc a)) as [[b|t]|] eqn:E; try reflexivity.
-    destruct (inv_sym s Hi a t Va E) as [c [Hc [-> E2]]]. rewrite E2. reflexivity.
+    intros s a Hi Va. unfold fs_stat. cbn [fs_resolve].
+    destruct (fs_get s (loc a)) as [[i b|t]|] eqn:E; try reflexivity.
+    destruct (inv_sym s Hi a t Va E) as [c [i [Hc [-> E2]]]]. rewrite E2. reflexivity.
   Qed.
 
-  Lemma read_file : forall s p b, fs_get s p = Some (NFile b) -> fs_read s p = Some b.
-  Proof. intros s p b E. unfold fs_read. cbn [fs_resolve]. rewrite E. reflexivity. Qed.
+  Lemma stat_file : forall s p i b, fs_get s p = Some (NFile i b) -> fs_stat s p = Some (i, b).
+  Proof. intros s p i b E. unfold fs_stat. cbn [fs_resolve]. rewrite E. reflexivity. Qed.
+
+  Lemma read_file : forall s p i b, fs_get s p = Some (NFile i b) -> fs_read s p = Some b.
+  Proof. intros s p i b E. unfold fs_read. rewrite (stat_file _ _ _ _ E). reflexivity. Qed.
+
+  Lemma stat_none : forall s p, fs_get s p = None -> fs_stat s p = None.
+  Proof. intros s p E. unfold fs_stat. cbn [fs_resolve]. rewrite E. reflexivity. Qed.
 
   Lemma read_none : forall s p, fs_get s p = None -> fs_read s p = None.
-  Proof. intros s p E. unfold fs_read. cbn [fs_resolve]. rewrite E. reflexivity. Qed.
+  Proof. intros s p E. unfold fs_read. rewrite (stat_none _ _ E). reflexivity. Qed.
 
   (* a state change that leaves alone: the entry of b's path and every single-colour file that exists *)
   Lemma read_preserved : forall s s' b, Inv s -> V b ->
@@ -152,19 +172,56 @@ Section FileRefine.
     (forall c n, colour c -> fs_get s (scp c) = Some n -> fs_get s' (scp c) = Some n) ->
     Inv s' -> fs_read s' (loc b) = fs_read s (loc b).
   Proof.
-    intros s s' b Hi Vb E Hsc Hi'. rewrite (read_loc s' b Hi' Vb), (read_loc s b Hi Vb). rewrite E.
-    destruct (fs_get s (loc b)) as [[x|t]|] eqn:G; try reflexivity.
-    destruct (inv_sym s Hi b t Vb G) as [c [Hc [-> E2]]]. rewrite E2. rewrite (Hsc c _ Hc E2). reflexivity.
+    intros s s' b Hi Vb E Hsc Hi'. unfold fs_read. rewrite (stat_loc s' b Hi' Vb), (stat_loc s b Hi Vb). rewrite E.
+    destruct (fs_get s (loc b)) as [[i x|t]|] eqn:G; try reflexivity.
+    destruct (inv_sym s Hi b t Vb G) as [c [i [Hc [-> E2]]]]. rewrite E2. rewrite (Hsc c _ Hc E2). reflexivity.
   Qed.
 
-  Lemma get_plain : forall s p b q, fs_get (fstore_plain s p b) q = if path_eqb p q then Some (NFile b) else fs_get s q.
+  Definition plain_base (s : fs) (p : path) : fs := if fs_islink s p then fs_del s p else s.
+
+  Lemma base_get : forall s p q, fs_get (plain_base s p) q = fs_get s q \/ fs_get (plain_base s p) q = None.
   Proof.
-    intros. unfold fstore_plain. destruct (fs_islink s p); rewrite fs_get_put; [|reflexivity].
-    destruct (path_eqb p q) eqn:E; [reflexivity|]. rewrite fs_get_del, E. reflexivity.
+    intros. unfold plain_base. destruct (fs_islink s p); [|left; reflexivity].
+    rewrite fs_get_del. destruct (path_eqb p q); [right | left]; reflexivity.
+  Qed.
+
+  Lemma get_plain : forall s p b q,
+    fs_get (fstore_plain s p b) q = if path_eqb p q then Some (NFile (fs_fresh (plain_base s p)) b) else fs_get s q.
+  Proof.
+    intros. unfold fstore_plain. fold (plain_base s p). rewrite fs_get_put.
+    destruct (path_eqb p q) eqn:E; [reflexivity|].
+    unfold plain_base. destruct (fs_islink s p); [|reflexivity]. rewrite fs_get_del, E. reflexivity.
+  Qed.
+
+  (* the inode of a freshly written file is not the inode of any other entry *)
+  Lemma plain_fresh : forall s p q i b, fs_get s q = Some (NFile i b) -> p <> q -> i <> fs_fresh (plain_base s p).
+  Proof.
+    intros s p q i b E N ->.
+    assert (G : fs_get (plain_base s p) q = Some (NFile (fs_fresh (plain_base s p)) b)).
+    { unfold plain_base in *. destruct (fs_islink s p); [|exact E].
+      rewrite fs_get_del. rewrite path_eqb_neq by exact N. exact E. }
+    exact (fresh_not_used _ _ _ G).
   Qed.
 
   Lemma loc_neq : forall a b, V a -> V b -> a <> b -> loc a <> loc b.
   Proof. intros a b Va Vb N E. apply N. apply Hinj; assumption. Qed.
+
+  (* writing a new file at p (p a tile path or a missing single-colour path) keeps the inode invariant *)
+  Lemma plain_ino : forall s p b, Inv s ->
+    forall q1 q2 i b1 b2, fs_get (fstore_plain s p b) q1 = Some (NFile i b1) ->
+                          fs_get (fstore_plain s p b) q2 = Some (NFile i b2) -> b1 = b2.
+  Proof.
+    intros s p b Hi q1 q2 i b1 b2 E1 E2. rewrite get_plain in E1, E2.
+    destruct (path_eqb p q1) eqn:P1; destruct (path_eqb p q2) eqn:P2.
+    - injection E1 as <- <-. injection E2 as <-. reflexivity.
+    - injection E1 as <- <-. exfalso.
+      assert (N : p <> q2) by (intros ->; rewrite path_eqb_refl in P2; discriminate).
+      exact (plain_fresh s p q2 _ b2 E2 N eq_refl).
+    - injection E2 as <- <-. exfalso.
+      assert (N : p <> q1) by (intros ->; rewrite path_eqb_refl in P1; discriminate).
+      exact (plain_fresh s p q1 _ b1 E1 N eq_refl).
+    - exact (inv_ino s Hi q1 q2 i b1 b2 E1 E2).
+  Qed.
 
   (* ---- plain store *)
   Lemma plain_inv : forall s a b, Inv s -> V a -> Inv (fstore_plain s (loc a) b).
@@ -174,14 +231,15 @@ Section FileRefine.
       eapply inv_sc; eassumption.
     - intros a' t Va' E. rewrite get_plain in E.
       destruct (path_eqb (loc a) (loc a')) eqn:P; [discriminate|].
-      destruct (inv_sym s Hi a' t Va' E) as [c [Hc [-> E2]]]. exists c. split; [assumption | split; [reflexivity|]].
+      destruct (inv_sym s Hi a' t Va' E) as [c [i [Hc [-> E2]]]]. exists c, i. split; [assumption | split; [reflexivity|]].
       rewrite get_plain. rewrite path_eqb_neq by (apply Hdisj; assumption). exact E2.
+    - apply plain_ino. exact Hi.
   Qed.
 
   Lemma plain_rel : forall s m a b, Inv s -> V a -> frel s m -> frel (fstore_plain s (loc a) b) (supd m a (Some b)).
   Proof.
     intros s m a b Hi Va Hr a' Va'. unfold supd. destruct (addr_eqb a' a) eqn:E.
-    - apply addr_eqb_eq in E. subst a'. apply read_file. rewrite get_plain, path_eqb_refl. reflexivity.
+    - apply addr_eqb_eq in E. subst a'. eapply read_file. rewrite get_plain, path_eqb_refl. reflexivity.
     - assert (N : a <> a') by (intros ->; rewrite addr_eqb_refl in E; discriminate).
       rewrite <- (Hr a' Va'). apply read_preserved; try assumption.
       + rewrite get_plain. rewrite path_eqb_neq by (apply loc_neq; assumption). reflexivity.
@@ -194,40 +252,68 @@ Section FileRefine.
     fs_exists s (scp c) = is_some (fs_get s (scp c)).
   Proof.
     intros s c Hi Hc. unfold fs_exists. destruct (fs_get s (scp c)) as [n|] eqn:E.
-    - rewrite (inv_sc s Hi c n Hc E) in E. rewrite (read_file _ _ _ E). reflexivity.
-    - rewrite (read_none _ _ E). reflexivity.
+    - destruct (inv_sc s Hi c n Hc E) as [i ->]. rewrite (stat_file _ _ _ _ E). reflexivity.
+    - rewrite (stat_none _ _ E). reflexivity.
   Qed.
 
-  (* after the first step the single-colour file of c exists with the canonical content, nothing else changed *)
+  (* first step: the single-colour file of c exists afterwards with the canonical content, nothing else changed *)
   Definition ensure_sc (s : fs) (b : bytes) (c : Z) : fs :=
     if fs_exists s (scp c) then s else fstore_plain s (scp c) b.
 
-  Lemma ensure_get : forall s b c q, Inv s -> colour c -> b = canon c ->
-    fs_get (ensure_sc s b c) q = if path_eqb (scp c) q then Some (NFile (canon c)) else fs_get s q.
+  Lemma ensure_get : forall s b c, Inv s -> colour c -> b = canon c ->
+    exists i0, forall q,
+      fs_get (ensure_sc s b c) q = if path_eqb (scp c) q then Some (NFile i0 (canon c)) else fs_get s q.
   Proof.
-    intros s b c q Hi Hc ->. unfold ensure_sc. rewrite exists_iff_get by assumption.
+    intros s b c Hi Hc ->. unfold ensure_sc. rewrite exists_iff_get by assumption.
     destruct (fs_get s (scp c)) as [n|] eqn:E; cbn [is_some].
-    - destruct (path_eqb (scp c) q) eqn:P; [|reflexivity].
-      apply path_eqb_eq in P. subst q. rewrite E. f_equal. eapply inv_sc; eassumption.
-    - apply get_plain.
+    - destruct (inv_sc s Hi c n Hc E) as [i ->]. exists i. intros q.
+      destruct (path_eqb (scp c) q) eqn:P; [|reflexivity]. apply path_eqb_eq in P. subst q. exact E.
+    - eexists. intros q. apply get_plain.
   Qed.
 
-  Definition clear_loc (s : fs) (p : path) : fs :=
-    if fs_exists s p || fs_islink s p then fs_del s p else s.
-
-  Lemma clear_get : forall s p q, fs_get (clear_loc s p) q = if path_eqb p q then None else fs_get s q.
+  Lemma ensure_inv : forall s b c, Inv s -> colour c -> b = canon c -> Inv (ensure_sc s b c).
   Proof.
-    intros. unfold clear_loc. destruct (fs_exists s p || fs_islink s p) eqn:E.
-    - apply fs_get_del.
-    - destruct (path_eqb p q) eqn:P; [|reflexivity]. apply path_eqb_eq in P. subst q.
-      apply orb_false_iff in E. destruct E as [E1 E2]. unfold fs_exists, fs_read, fs_islink in *.
-      cbn [fs_resolve] in E1. destruct (fs_get s p) as [[b|t]|]; try reflexivity; discriminate.
+    intros s b c Hi Hc Hb. destruct (ensure_get s b c Hi Hc Hb) as [i0 G]. constructor.
+    - intros c' n Hc' E. rewrite G in E. destruct (path_eqb (scp c) (scp c')) eqn:P.
+      + apply path_eqb_eq in P. apply sc_path_inj in P; try assumption. subst c'. injection E as <-. eexists. reflexivity.
+      + eapply inv_sc; eassumption.
+    - intros a t Va E. rewrite G in E. rewrite path_eqb_neq in E by (intros Q; symmetry in Q; revert Q; apply Hdisj; assumption).
+      destruct (inv_sym s Hi a t Va E) as [c' [i [Hc' [-> E2]]]].
+      rewrite G. destruct (path_eqb (scp c) (scp c')) eqn:P.
+      + apply path_eqb_eq in P. apply sc_path_inj in P; try assumption. subst c'. exists c, i0. split; [assumption | split; reflexivity].
+      + exists c', i. split; [assumption | split; [reflexivity | exact E2]].
+    - unfold ensure_sc. destruct (fs_exists s (scp c)); [apply (inv_ino s Hi) | apply plain_ino; exact Hi].
   Qed.
 
-  Definition mono_node (c : Z) : node := match link with LHard => NFile (canon c) | _ => NSym (scp c) end.
+  Lemma ensure_keeps : forall s b c q n, Inv s -> colour c -> b = canon c ->
+    fs_get s q = Some n -> fs_get (ensure_sc s b c) q = Some n.
+  Proof.
+    intros s b c q n Hi Hc Hb E. unfold ensure_sc. rewrite exists_iff_get by assumption.
+    destruct (fs_get s (scp c)) as [n'|] eqn:E'; cbn [is_some]; [exact E|].
+    rewrite get_plain. destruct (path_eqb (scp c) q) eqn:P; [|exact E].
+    apply path_eqb_eq in P. subst q. rewrite E in E'. discriminate.
+  Qed.
 
-  Lemma mono_node_cases : forall c, link <> LNone -> mono_node c = NFile (canon c) \/ mono_node c = NSym (scp c).
-  Proof. intros c H. unfold mono_node. destruct link; [contradiction | right | left]; reflexivity. Qed.
+  Lemma ensure_loc : forall s b c a, Inv s -> colour c -> b = canon c -> V a ->
+    fs_get (ensure_sc s b c) (loc a) = fs_get s (loc a).
+  Proof.
+    intros s b c a Hi Hc Hb Va. destruct (ensure_get s b c Hi Hc Hb) as [i0 G]. rewrite G.
+    rewrite path_eqb_neq by (intros Q; symmetry in Q; revert Q; apply Hdisj; assumption). reflexivity.
+  Qed.
+
+  Lemma ensure_rel : forall s m b c, Inv s -> colour c -> b = canon c -> frel s m -> frel (ensure_sc s b c) m.
+  Proof.
+    intros s m b c Hi Hc Hb Hr a Va. rewrite <- (Hr a Va). apply read_preserved; try assumption.
+    - apply ensure_loc; assumption.
+    - intros c' n Hc' G. apply ensure_keeps; assumption.
+    - apply ensure_inv; assumption.
+  Qed.
+
+  Definition mono_node (i0 : nat) (c : Z) : node := match link with LHard => NFile i0 (canon c) | _ => NSym (scp c) end.
+
+  Lemma mono_node_cases : forall i0 c, link <> LNone ->
+    mono_node i0 c = NFile i0 (canon c) \/ mono_node i0 c = NSym (scp c).
+  Proof. intros i0 c H. unfold mono_node. destruct link; [contradiction | right | left]; reflexivity. Qed.
 
   Lemma link_cases : link = LNone \/ link <> LNone.
   Proof. destruct link; [left; reflexivity | right; discriminate | right; discriminate]. Qed.
@@ -240,71 +326,84 @@ Section FileRefine.
   Lemma fstore_unlinked : forall s a b, link = LNone -> fstore layout ext link s a b = fstore_plain s (loc a) b.
   Proof. intros s a b H. unfold fstore. rewrite H. reflexivity. Qed.
 
-  Lemma mono_get : forall s a b c q, Inv s -> V a -> colour c -> b = canon c -> link <> LNone ->
-    fs_get (fstore_mono ext link s (loc a) b c) q =
-    if path_eqb (loc a) q then Some (mono_node c)
-    else if path_eqb (scp c) q then Some (NFile (canon c)) else fs_get s q.
+  (* second step on a state s1 in which the single-colour file exists *)
+  Definition link_step (s1 : fs) (p : path) (c : Z) : fs :=
+    if fs_exists s1 p && fs_samefile s1 (scp c) p then s1
+    else match link with
+         | LHard => match fs_get s1 (scp c) with Some n => fs_put s1 p n | None => s1 end
+         | _ => fs_put s1 p (NSym (scp c))
+         end.
+
+  Lemma fstore_mono_steps : forall s p b c, fstore_mono ext link s p b c = link_step (ensure_sc s b c) p c.
+  Proof. reflexivity. Qed.
+
+  Lemma link_step_cases : forall s1 a c i0, Inv s1 -> V a -> colour c -> link <> LNone ->
+    fs_get s1 (scp c) = Some (NFile i0 (canon c)) ->
+    (link_step s1 (loc a) c = s1 /\ fs_read s1 (loc a) = Some (canon c)) \/
+    (forall q, fs_get (link_step s1 (loc a) c) q = if path_eqb (loc a) q then Some (mono_node i0 c) else fs_get s1 q).
   Proof.
-    intros s a b c q Hi Va Hc Hb Hl. unfold fstore_mono.
-    fold (ensure_sc s b c). fold (clear_loc (ensure_sc s b c) (loc a)).
-    set (s2 := clear_loc (ensure_sc s b c) (loc a)).
-    assert (G2 : forall q, fs_get s2 q = if path_eqb (loc a) q then None
-                                         else if path_eqb (scp c) q then Some (NFile (canon c)) else fs_get s q).
-    { intros q'. unfold s2. rewrite clear_get. destruct (path_eqb (loc a) q'); [reflexivity|].
-      apply ensure_get; assumption. }
-    assert (Gl : fs_get s2 (loc a) = None) by (rewrite G2, path_eqb_refl; reflexivity).
-    assert (Gr : fs_get s2 (scp c) = Some (NFile (canon c))).
-    { rewrite G2. rewrite path_eqb_neq by (apply Hdisj; assumption). rewrite path_eqb_refl. reflexivity. }
-    unfold mono_node. destruct link; [contradiction| |].
-    - rewrite Gl. rewrite fs_get_put. destruct (path_eqb (loc a) q) eqn:P; [reflexivity|].
-      rewrite G2, P. reflexivity.
-    - rewrite Gl, Gr. rewrite fs_get_put. destruct (path_eqb (loc a) q) eqn:P; [reflexivity|].
-      rewrite G2, P. reflexivity.
+    intros s1 a c i0 Hi Va Hc Hl Gr. unfold link_step.
+    destruct (fs_exists s1 (loc a) && fs_samefile s1 (scp c) (loc a)) eqn:S.
+    - left. split; [reflexivity|]. apply andb_true_iff in S. destruct S as [_ S].
+      unfold fs_samefile in S. rewrite (stat_file _ _ _ _ Gr) in S. unfold fs_read.
+      rewrite (stat_loc s1 a Hi Va) in *.
+      destruct (fs_get s1 (loc a)) as [[j x|t]|] eqn:G; try discriminate.
+      + apply Nat.eqb_eq in S. subst j. f_equal. symmetry. exact (inv_ino s1 Hi _ _ _ _ _ Gr G).
+      + destruct (inv_sym s1 Hi a t Va G) as [c' [j [Hc' [-> E2]]]]. rewrite E2 in *.
+        apply Nat.eqb_eq in S. subst j. f_equal. symmetry. exact (inv_ino s1 Hi _ _ _ _ _ Gr E2).
+    - right. intros q. unfold mono_node. destruct link; [contradiction| |].
+      + apply fs_get_put.
+      + rewrite Gr. apply fs_get_put.
   Qed.
 
-  Lemma mono_inv : forall s a b c, Inv s -> V a -> colour c -> b = canon c -> link <> LNone ->
-    Inv (fstore_mono ext link s (loc a) b c).
+  Lemma link_step_ok : forall s1 m a c i0, Inv s1 -> V a -> colour c -> link <> LNone ->
+    fs_get s1 (scp c) = Some (NFile i0 (canon c)) -> frel s1 m ->
+    Inv (link_step s1 (loc a) c) /\ frel (link_step s1 (loc a) c) (supd m a (Some (canon c))).
   Proof.
-    intros s a b c Hi Va Hc Hb Hl. constructor.
-    - intros c' n Hc' E. rewrite (mono_get s a b c _ Hi Va Hc Hb Hl) in E.
-      rewrite path_eqb_neq in E by (apply Hdisj; assumption).
-      destruct (path_eqb (scp c) (scp c')) eqn:P.
-      + apply path_eqb_eq in P. apply sc_path_inj in P; try assumption. subst c'. injection E as <-. reflexivity.
-      + eapply inv_sc; eassumption.
-    - intros a' t Va' E. rewrite (mono_get s a b c _ Hi Va Hc Hb Hl) in E.
-      destruct (path_eqb (loc a) (loc a')) eqn:P.
-      + injection E as E. destruct (mono_node_cases c Hl) as [Q|Q]; rewrite Q in E; [discriminate|]. injection E as <-.
-        exists c. split; [assumption | split; [reflexivity|]].
-        rewrite (mono_get s a b c _ Hi Va Hc Hb Hl). rewrite path_eqb_neq by (apply Hdisj; assumption).
-        rewrite path_eqb_refl. reflexivity.
-      + rewrite path_eqb_neq in E by (intros Q; symmetry in Q; revert Q; apply Hdisj; assumption).
-        destruct (inv_sym s Hi a' t Va' E) as [c' [Hc' [-> E2]]]. exists c'. split; [assumption | split; [reflexivity|]].
-        rewrite (mono_get s a b c _ Hi Va Hc Hb Hl). rewrite path_eqb_neq by (apply Hdisj; assumption).
-        destruct (path_eqb (scp c) (scp c')) eqn:P2; [|exact E2].
-        apply path_eqb_eq in P2. apply sc_path_inj in P2; try assumption. subst c'. reflexivity.
+    intros s1 m a c i0 Hi Va Hc Hl Gr Hr.
+    destruct (link_step_cases s1 a c i0 Hi Va Hc Hl Gr) as [[E R]|G].
+    - rewrite E. split; [exact Hi|]. intros a' Va'. unfold supd. destruct (addr_eqb a' a) eqn:Q.
+      + apply addr_eqb_eq in Q. subst a'. exact R.
+      + apply Hr. exact Va'.
+    - set (s' := link_step s1 (loc a) c) in *.
+      assert (Gr' : fs_get s' (scp c) = Some (NFile i0 (canon c))).
+      { rewrite G. rewrite path_eqb_neq by (apply Hdisj; assumption). exact Gr. }
+      assert (Hi' : Inv s').
+      { constructor.
+        - intros c' n Hc' E. rewrite G in E. rewrite path_eqb_neq in E by (apply Hdisj; assumption).
+          eapply inv_sc; eassumption.
+        - intros a' t Va' E. rewrite G in E. destruct (path_eqb (loc a) (loc a')) eqn:P.
+          + injection E as E. destruct (mono_node_cases i0 c Hl) as [Q|Q]; rewrite Q in E; [discriminate|].
+            injection E as <-. exists c, i0. split; [assumption | split; [reflexivity | exact Gr']].
+          + destruct (inv_sym s1 Hi a' t Va' E) as [c' [i [Hc' [-> E2]]]]. exists c', i.
+            split; [assumption | split; [reflexivity|]].
+            rewrite G. rewrite path_eqb_neq by (apply Hdisj; assumption). exact E2.
+        - intros q1 q2 i b1 b2 E1 E2. rewrite G in E1, E2.
+          destruct (mono_node_cases i0 c Hl) as [Q|Q]; rewrite Q in *;
+            destruct (path_eqb (loc a) q1) eqn:P1; destruct (path_eqb (loc a) q2) eqn:P2;
+            try discriminate; try (exact (inv_ino s1 Hi _ _ _ _ _ E1 E2)).
+          + injection E1 as <- <-. injection E2 as <-. reflexivity.
+          + injection E1 as <- <-. exact (inv_ino s1 Hi _ _ _ _ _ Gr E2).
+          + injection E2 as <- <-. symmetry. exact (inv_ino s1 Hi _ _ _ _ _ Gr E1). }
+      split; [exact Hi'|]. intros a' Va'. unfold supd. destruct (addr_eqb a' a) eqn:Q.
+      + apply addr_eqb_eq in Q. subst a'. unfold fs_read. rewrite (stat_loc s' a Hi' Va).
+        rewrite G, path_eqb_refl. destruct (mono_node_cases i0 c Hl) as [Q|Q]; rewrite Q; [reflexivity|].
+        rewrite Gr'. reflexivity.
+      + assert (N : a <> a') by (intros ->; rewrite addr_eqb_refl in Q; discriminate).
+        rewrite <- (Hr a' Va'). apply read_preserved; try assumption.
+        * rewrite G. rewrite path_eqb_neq by (apply loc_neq; assumption). reflexivity.
+        * intros c' n Hc' E. rewrite G. rewrite path_eqb_neq by (apply Hdisj; assumption). exact E.
   Qed.
 
-  Lemma mono_rel : forall s m a b c, Inv s -> V a -> colour c -> b = canon c -> link <> LNone -> frel s m ->
-    frel (fstore_mono ext link s (loc a) b c) (supd m a (Some b)).
+  Lemma mono_ok : forall s m a b c, Inv s -> V a -> colour c -> b = canon c -> link <> LNone -> frel s m ->
+    Inv (fstore_mono ext link s (loc a) b c) /\ frel (fstore_mono ext link s (loc a) b c) (supd m a (Some b)).
   Proof.
-    intros s m a b c Hi Va Hc Hb Hl Hr a' Va'. unfold supd.
-    pose proof (mono_inv s a b c Hi Va Hc Hb Hl) as Hi'.
-    destruct (addr_eqb a' a) eqn:E.
-    - apply addr_eqb_eq in E. subst a'. rewrite (read_loc _ a Hi' Va).
-      rewrite (mono_get s a b c _ Hi Va Hc Hb Hl), path_eqb_refl.
-      destruct (mono_node_cases c Hl) as [Q|Q]; rewrite Q.
-      + subst b. reflexivity.
-      + rewrite (mono_get s a b c _ Hi Va Hc Hb Hl). rewrite path_eqb_neq by (apply Hdisj; assumption).
-        rewrite path_eqb_refl. subst b. reflexivity.
-    - assert (N : a <> a') by (intros ->; rewrite addr_eqb_refl in E; discriminate).
-      rewrite <- (Hr a' Va'). apply read_preserved; try assumption.
-      + rewrite (mono_get s a b c _ Hi Va Hc Hb Hl). rewrite path_eqb_neq by (apply loc_neq; assumption).
-        rewrite path_eqb_neq by (intros Q; symmetry in Q; revert Q; apply Hdisj; assumption). reflexivity.
-      + intros c' n Hc' G. rewrite (mono_get s a b c _ Hi Va Hc Hb Hl).
-        rewrite path_eqb_neq by (apply Hdisj; assumption).
-        destruct (path_eqb (scp c) (scp c')) eqn:P2; [|exact G].
-        apply path_eqb_eq in P2. apply sc_path_inj in P2; try assumption. subst c'.
-        f_equal. symmetry. exact (inv_sc s Hi c n Hc G).
+    intros s m a b c Hi Va Hc Hb Hl Hr. rewrite fstore_mono_steps.
+    destruct (ensure_get s b c Hi Hc Hb) as [i0 G].
+    assert (Gr : fs_get (ensure_sc s b c) (scp c) = Some (NFile i0 (canon c))) by (rewrite G, path_eqb_refl; reflexivity).
+    rewrite Hb at 3. apply (link_step_ok _ m a c i0); try assumption.
+    - apply ensure_inv; assumption.
+    - apply ensure_rel; assumption.
   Qed.
 
   (* ---- store_tile *)
@@ -317,7 +416,7 @@ Section FileRefine.
     - rewrite fstore_linked by exact L. destruct (mono b) as [c|] eqn:M.
       + assert (Hc : colour c) by (rewrite Forall_forall in Hcol; apply Hcol; apply mono_in; exact M).
         assert (Hb : b = canon c) by (unfold canon; rewrite <- Hlen; apply mono_canonical; exact M).
-        split; [apply mono_inv | apply mono_rel]; assumption.
+        apply mono_ok; assumption.
       + split; [apply plain_inv | apply plain_rel]; assumption.
   Qed.
 
@@ -343,8 +442,11 @@ Section FileRefine.
       - intros c n Hc E. rewrite fs_get_del in E. rewrite path_eqb_neq in E by (apply Hdisj; assumption).
         eapply inv_sc; eassumption.
       - intros a' t Va' E. rewrite fs_get_del in E. destruct (path_eqb (loc a) (loc a')); [discriminate|].
-        destruct (inv_sym s Hi a' t Va' E) as [c [Hc [-> E2]]]. exists c. split; [assumption | split; [reflexivity|]].
-        rewrite fs_get_del. rewrite path_eqb_neq by (apply Hdisj; assumption). exact E2. }
+        destruct (inv_sym s Hi a' t Va' E) as [c [i [Hc [-> E2]]]]. exists c, i. split; [assumption | split; [reflexivity|]].
+        rewrite fs_get_del. rewrite path_eqb_neq by (apply Hdisj; assumption). exact E2.
+      - intros q1 q2 i b1 b2 E1 E2. rewrite fs_get_del in E1, E2.
+        destruct (path_eqb (loc a) q1); [discriminate|]. destruct (path_eqb (loc a) q2); [discriminate|].
+        exact (inv_ino s Hi _ _ _ _ _ E1 E2). }
     split; [exact Hi'|]. intros a' Va'. unfold supd. destruct (addr_eqb a' a) eqn:E.
     - apply addr_eqb_eq in E. subst a'. apply read_none. rewrite fs_get_del, path_eqb_refl. reflexivity.
     - assert (N : a <> a') by (intros ->; rewrite addr_eqb_refl in E; discriminate).
@@ -364,7 +466,10 @@ Section FileRefine.
     - inversion Hok; subst. unfold fload. rewrite (Hr a) by assumption. split; [reflexivity|]. split; assumption.
     - split; [|split; assumption]. f_equal. apply map_ext_in. intros a Ha. unfold fload.
       apply Hr. rewrite Forall_forall in Hok. apply Hok. exact Ha.
-    - inversion Hok; subst. unfold fs_exists. rewrite (Hr a) by assumption. split; [reflexivity|]. split; assumption.
+    - inversion Hok; subst.
+      assert (X : fs_exists s (loc a) = is_some (fs_read s (loc a)))
+        by (unfold fs_exists, fs_read; destruct (fs_stat s (loc a)) as [[i b]|]; reflexivity).
+      rewrite X, (Hr a) by assumption. split; [reflexivity|]. split; assumption.
     - inversion Hok; subst. split; [reflexivity|]. apply remove_ok; assumption.
   Qed.
 
